@@ -45,7 +45,7 @@ def run(tier, replay):
             "states": mc.distinct + gen.distinct, "transitions": mc.generated + gen.generated,
             "traces_validated_against_impl": n1["Serve"] + n3["Serve"], "wire_requests": n3["Serve"], "spec_cases_replayed": ncases,
             "samples": S.sample_events(trace, 3),
-            "rule": "Gen_Static(c03): file lengths {0,1,2,3,10,8191,8192,8193,70000} x every single spec (first-last, first-, -suffix, junk) with offsets "
+            "rule": "[plus BigWorld: a 12 MiB file with slices of 1 / 4 / 8 MiB +-1, 10 and 12 MB judged by label, lengths and a sample; a 2 MiB file with 1100 / 2000 ranges] Gen_Static(c03): file lengths {0,1,2,3,10,8191,8192,8193,70000} x every single spec (first-last, first-, -suffix, junk) with offsets "
                     "from {0,1,L-2,L-1,L,L+1,u64max,>u64max,junk} + all pairs%s over a reduced spec set + whitespace / wrong unit / empty list; "
                     "each response judged by C03Violations (status, Content-Range labels, exact slice bytes, multipart structure and order)" % ("" if tier == "quick" else " and triples"),
         }
